@@ -1191,6 +1191,10 @@ func (self *PathNode) scanChildren(p *thrift.BinaryProtocol, recurse bool, opts 
 		if e != nil {
 			return errNode(meta.ErrRead, "", e)
 		}
+		if size > p.Left() {
+			// every entry takes at least two bytes: a corrupt header must not size the children table
+			return errNode(meta.ErrRead, "map size exceeds the buffer", nil)
+		}
 
 		self.et = et
 		self.kt = kt
